@@ -164,6 +164,7 @@ type config struct {
 	bloom     bool
 	oldActive uint32 // FullHistory: NumOfOldActivePersisters
 	keys      int
+	depth     int
 }
 
 func (c config) String() string {
@@ -300,6 +301,7 @@ type inst struct {
 	removed  map[string]bool                       // Remove(k)==nil and no put of k since
 	everPut  map[string]bool
 
+	vw    *pruning.VerifC30View // cached snapshot, dropped by every operation that can change it
 	hist  []int
 	nt    string // last non-trivial observation
 	reads []string
@@ -346,6 +348,16 @@ func newInst(cfg config, menu []op) *inst {
 		panic("storer did not register an epoch-start handler")
 	}
 	return s
+}
+
+// view returns the storer's own snapshot; cached between operations that cannot change it
+// (plain reads only touch the cache).
+func (s *inst) view() pruning.VerifC30View {
+	if s.vw == nil {
+		v := s.ps.VerifC30View()
+		s.vw = &v
+	}
+	return *s.vw
 }
 
 func key(k int) []byte { return []byte(keyNames[k]) }
@@ -399,7 +411,7 @@ func (s *inst) enabled(o op) bool {
 }
 
 func (s *inst) ctx() string {
-	v := s.ps.VerifC30View()
+	v := s.view()
 	ret := make([]int, 0, len(v.ByEpoch))
 	for e := range v.ByEpoch {
 		ret = append(ret, int(e))
@@ -410,7 +422,7 @@ func (s *inst) ctx() string {
 
 // judgePlain evaluates the result of a plain read (Get / Has / SearchFirst).
 func (s *inst) judgePlain(what string, k string, found bool, v string, hasValue bool) (string, string) {
-	view := s.ps.VerifC30View()
+	view := s.view()
 	must := false
 	allowed := map[string]bool{}
 	for c := range s.cached[k] {
@@ -444,7 +456,7 @@ func (s *inst) judgePlain(what string, k string, found bool, v string, hasValue 
 
 // judgeEpoch evaluates the result of GetFromEpoch(k, e).
 func (s *inst) judgeEpoch(what string, k string, e uint32, found bool, v string) (string, string) {
-	view := s.ps.VerifC30View()
+	view := s.view()
 	_, retained := view.ByEpoch[e]
 	if s.cfg.full {
 		retained = true // full history: every epoch ever written stays reachable by path
@@ -524,6 +536,9 @@ func (s *inst) doGetFromEpoch(k int, e uint32) (string, string) {
 	what := fmt.Sprintf("GetFromEpoch(%s,%d)", keyNames[k], e)
 	s.reads = append(s.reads, what)
 	v, err := s.st.GetFromEpoch(key(k), e)
+	if s.cfg.full {
+		s.vw = nil
+	}
 	found := err == nil && (v != nil || !s.cfg.full)
 	return s.judgeEpoch(what, keyNames[k], e, found, string(v))
 }
@@ -532,10 +547,14 @@ func (s *inst) do(i int) (string, string) {
 	o := s.menu[i]
 	s.hist = append(s.hist, i)
 	s.nt = ""
+	s.vw = nil
+	if o.kind != opGet {
+		defer func() { s.vw = nil }()
+	}
 	switch o.kind {
 	case opPut:
 		k, v := keyNames[o.k], valNames[o.v]
-		view := s.ps.VerifC30View()
+		view := s.view()
 		pd, ok := view.ByEpoch[view.EpochForPut]
 		open := ok && !pd.Closed
 		err := s.st.Put(key(o.k), val(o.v))
@@ -555,7 +574,7 @@ func (s *inst) do(i int) (string, string) {
 	case opPutInEpoch:
 		k, v := keyNames[o.k], valNames[o.v]
 		e := uint32(int(s.cur) - o.d)
-		view := s.ps.VerifC30View()
+		view := s.view()
 		pd, ok := view.ByEpoch[e]
 		open := ok && !pd.Closed
 		err := s.st.PutInEpoch(key(o.k), val(o.v), e)
@@ -581,7 +600,7 @@ func (s *inst) do(i int) (string, string) {
 		return s.doGetFromEpoch(o.k, uint32(int(s.cur)-o.d))
 	case opRemove:
 		k := keyNames[o.k]
-		view := s.ps.VerifC30View()
+		view := s.view()
 		err := s.st.Remove(key(o.k))
 		delete(s.cached, k)
 		for _, p := range view.Active {
@@ -618,7 +637,7 @@ func (s *inst) do(i int) (string, string) {
 
 // window sanity: the implementation's own windows may not be smaller than configured.
 func (s *inst) checkWindow() (string, string) {
-	view := s.ps.VerifC30View()
+	view := s.view()
 	if len(view.Active) == 0 || view.Active[0].Epoch != s.cur {
 		return "current-epoch-not-newest-active", s.ctx()
 	}
@@ -726,7 +745,7 @@ func fmtSet(m map[string]bool) string { return strings.Join(keysOf(m), "|") }
 
 func (s *inst) stateKey() string {
 	var b strings.Builder
-	view := s.ps.VerifC30View()
+	view := s.view()
 	fmt.Fprintf(&b, "cur%d put%d prep%v/%d/%d|A", s.cur, view.EpochForPut, s.prepared, view.PrepareEpoch, view.PrepareOldest)
 	hc := func(p pruning.VerifC30Persister) bool {
 		if h, ok := p.Persister.(*handle); ok {
@@ -812,7 +831,7 @@ func (s *inst) stateKey() string {
 }
 
 func (s *inst) outcome() string {
-	view := s.ps.VerifC30View()
+	view := s.view()
 	es := make([]int, 0, len(view.ByEpoch))
 	for e := range view.ByEpoch {
 		es = append(es, int(e)-int(s.cur))
@@ -829,41 +848,57 @@ func (s *inst) outcome() string {
 
 func configs(c *mc.Ctx) []config {
 	var r []config
-	add := func(full bool, a, k, cc uint32, bloom bool, keys int) {
-		r = append(r, config{full: full, active: a, keep: k, cacheCap: cc, bloom: bloom, oldActive: 1, keys: keys})
+	add := func(full bool, a, k, cc uint32, bloom bool, keys, depth int) {
+		r = append(r, config{full: full, active: a, keep: k, cacheCap: cc, bloom: bloom, oldActive: 1, keys: keys, depth: depth})
 	}
 	if c.Quick() {
-		add(false, 2, 2, 100, false, 2)
-		add(false, 1, 2, 1, true, 2)
-		add(false, 2, 3, 1, false, 2)
-		add(false, 3, 4, 100, true, 2)
-		add(true, 2, 3, 100, false, 2)
-		add(true, 1, 1, 1, true, 2)
+		add(false, 2, 2, 100, false, 2, 5)
+		add(false, 1, 2, 1, true, 2, 5)
+		add(false, 2, 3, 1, false, 2, 5)
+		add(false, 3, 4, 100, true, 2, 5)
+		add(true, 2, 3, 100, false, 2, 5)
+		add(true, 1, 1, 1, true, 2, 5)
 		return r
 	}
+	// depth 6 on a spread of configurations ...
+	deep := map[string]bool{}
+	addDeep := func(full bool, a, k, cc uint32, bloom bool) {
+		add(full, a, k, cc, bloom, 2, 6)
+		deep[fmt.Sprint(full, a, k, cc, bloom)] = true
+	}
+	addDeep(false, 2, 2, 100, false)
+	addDeep(false, 1, 2, 1, true)
+	addDeep(false, 2, 3, 1, false)
+	addDeep(false, 3, 4, 100, true)
+	addDeep(false, 1, 1, 1, false)
+	addDeep(true, 2, 3, 100, false)
+	addDeep(true, 1, 1, 1, true)
+	// ... and depth 5 on the full product active {1,2,3} x keep {active..4} x cache {1,100} x
+	// bloom {off,on} (plain storer) / two cache-bloom pairs (full history)
 	for a := uint32(1); a <= 3; a++ {
 		for k := a; k <= 4; k++ {
 			for _, cc := range []uint32{1, 100} {
 				for _, bl := range []bool{false, true} {
-					add(false, a, k, cc, bl, 2)
+					if !deep[fmt.Sprint(false, a, k, cc, bl)] {
+						add(false, a, k, cc, bl, 2, 5)
+					}
 				}
 			}
-			add(true, a, k, 1, false, 2)
-			add(true, a, k, 100, true, 2)
+			add(true, a, k, 1, false, 2, 5)
+			add(true, a, k, 100, true, 2, 5)
 		}
 	}
 	// three keys on the central configurations
-	add(false, 2, 3, 1, false, 3)
-	add(false, 2, 3, 100, true, 3)
+	add(false, 2, 3, 1, false, 3, 5)
+	add(false, 2, 3, 100, true, 3, 5)
 	return r
 }
 
 func main() {
 	_ = logger.SetLogLevel("*:NONE")
 	mc.Main("C30", "model_checking", func(c *mc.Ctx) {
-		depth := c.Pick(5, 6)
 		cfgs := configs(c)
-		c.Rule = "explicit-state BFS with state matching over the real PruningStorer / FullHistoryPruningStorer (stub path-keyed in-memory persisters surviving Close, real LRU cache, real bloom filter, handler fired through a stub notifier); operations: Put(k,v), PutInEpoch(k,v1,cur-{0,1,2}), SetEpochForPutOperation(cur-{-1..2}), Get(k), [full history: GetFromEpoch(k,cur-{-1..3})], Remove(k), ClearCache, 7 epoch changes (+1/+2 shard header without Prepare; Prepare(meta)+Action(shard header) with last-finalized lag 1,2,3 (stuck shard) and +2; Action(meta block) lag 2); after every transition a replayed copy answers Has/SearchFirst/GetFromEpoch(every epoch)/Get for every key as-is and again after ClearCache, all judged against the epoch->key->values reference; non-trivial = a plain read served by a non-newest active persister or an epoch read served by a closed retained epoch"
+		c.Rule = "explicit-state BFS with state matching over the real PruningStorer / FullHistoryPruningStorer (stub path-keyed in-memory persisters surviving Close, real LRU cache, real bloom filter, handler fired through a stub notifier); operations: Put(k,v), PutInEpoch(k,v1,cur-{0,1,2}), SetEpochForPutOperation(cur-{-1..2}), Get(k), [full history: GetFromEpoch(k,cur-{-1..3})], Remove(k), ClearCache, 5 kinds of epoch change, always to current+1 (Action(shard header) while Prepare was never used; Prepare(meta)+Action(shard header) with the oldest last-finalized shard header 1, 2 or 3 epochs back (2,3 = stuck shard); Action(meta block) 2 back); after every transition a replayed copy answers Has/SearchFirst/GetFromEpoch(every epoch)/Get for every key as-is and again after ClearCache, all judged against the epoch->key->values reference; non-trivial = a plain read served by a non-newest active persister or an epoch read served by a closed retained epoch"
 		c.Assumptions = append(c.Assumptions,
 			"R1: 'readable' = found with a value put under that key in an epoch the read may consult (or still cached); which of several active epochs' values wins is not regulated",
 			"R2: a Put / PutInEpoch is promised only if the storer's map has an open persister for the put-epoch at that moment (else the value is only remembered as possibly present in the epoch the storer falls back to / opens temporarily); a put returning an error promises nothing",
@@ -871,8 +906,10 @@ func main() {
 			"active / retained windows are the storer's own (activePersisters epochs, persistersMapByEpoch keys), separately checked to be no smaller than configured",
 			"stub persisters do not model leveldb's directory lock (a second Create of an open path succeeds); old-data cleaner ShouldClean()==true; starting epoch 0; pruning enabled; no db-lookup extensions",
 			"EpochStartPrepare precedes every EpochStartAction once it has been used (production order); the shard-header-only epoch change is explored only while Prepare was never called",
+			"epoch-start notifications carry consecutive epoch numbers (the production triggers advance by exactly one); skipped epoch numbers break the storer's window arithmetic (epoch-numOfActivePersisters) and are only explored with the unregistered --skips flag",
 		)
 		total := 0
+		byDepth := map[int]int{}
 		for _, cfg := range cfgs {
 			cfg := cfg
 			menu := buildMenu(cfg)
@@ -889,13 +926,14 @@ func main() {
 				Key:        func(s *inst) string { return s.stateKey() },
 				Nontrivial: func(s *inst) string { return s.nt },
 				Outcome:    func(s *inst) string { return s.outcome() },
-			}, depth)
+			}, cfg.depth)
 			c.Set("states "+cfg.String(), fmt.Sprintf("%d states, %d transitions, depth %d", st.States, st.Transitions, st.Depth))
 			total++
+			byDepth[cfg.depth]++
 			if c.Expired() {
 				break
 			}
 		}
-		c.Bound = fmt.Sprintf("all operation sequences of length <= %d from a fresh storer at epoch 0, for %d of %d configurations (storer kind x active x keep x cache capacity x bloom)", depth, total, len(cfgs))
+		c.Bound = fmt.Sprintf("all operation sequences from a fresh storer at epoch 0 of length <= 6 for %d and <= 5 for %d configurations (storer kind x active x keep x cache capacity x bloom x keys); %d of %d configurations completed", byDepth[6], byDepth[5], total, len(cfgs))
 	})
 }
